@@ -1,5 +1,5 @@
 SPECIFICATION Spec
-CONSTANT Bug = "none"
+CONSTANT Bug = "no_permit"
 INVARIANT Bounded
 INVARIANT PermitsOK
 INVARIANT AllRan
